@@ -620,6 +620,12 @@ func kase(g *vlib.G, key string, run func(t *vlib.T)) {
 		run(t)
 		if t.Failed() && nFindings == before {
 			t.Count("failed_cases_without_finding", 1)
+			if p := os.Getenv("C03_UNATTRIBUTED_LOG"); p != "" {
+				if f, err := os.OpenFile(p, os.O_APPEND|os.O_CREATE|os.O_WRONLY, 0o644); err == nil {
+					fmt.Fprintf(f, "%s/%s\n", t.Group, key)
+					f.Close()
+				}
+			}
 		}
 	})
 }
